@@ -9,8 +9,42 @@
 #define WANT_IDXSET
 #define WANT_SV_BULK
 #define WANT_VB_SPARSE
+#ifdef INST_REDIM
+#define WANT_VB_REDIM
+#define VEC_BLOCK CAP
+#endif
 #include "sparse_alg.h"
 #include "constants.h"
+
+#ifdef INST_REDIM
+/* spx_realloc: the real template minus the SPxMemoryException path; realloc = malloc(new size) + copy of the common prefix +
+ * free(old block) (as in units didxset / dsvector); the new block has a constant size >= the request (small SAT encoding) */
+extern "C" {
+void* malloc(size_t);
+void free(void*);
+void* verif_realloc(void* p, size_t n)
+{
+   __CPROVER_assert(n % sizeof(int) == 0 && 0 < n && n <= (CAP + 2) * sizeof(int), "realloc model: whole ints, within the modelled block");
+   int* q = (int*)malloc((CAP + 2) * sizeof(int));
+   __CPROVER_assume(q != 0);
+   size_t old = __CPROVER_OBJECT_SIZE(p);
+   size_t m = (old < n ? old : n) / sizeof(int);
+   for(size_t i = 0; i < m; ++i)
+      q[i] = ((const int*)p)[i];
+   free(p);
+   return q;
+}
+}
+#define realloc(p, n) verif_realloc((p), (n))
+template <class PT> inline void spx_realloc(PT& p, int n)
+{
+   PT pp;
+   if(n == 0) n = 1;
+   pp = (PT)(realloc(p, sizeof(*p) * (unsigned int) n));
+   __CPROVER_assume(pp != 0);         /* the real one throws SPxMemoryException */
+   p = pp;
+}
+#endif
 
 /* spxdefines.hpp: the real one-line bodies */
 inline bool isZero(R a, R eps)
@@ -117,6 +151,16 @@ struct SSVec : VectorBase<R>
    {
 #include "SS_setSV.inc"
    }
+#ifdef INST_REDIM
+   void setMax(int newmax)
+   {
+#include "SS_setMax.inc"
+   }
+   void reDim(int newdim)
+   {
+#include "SS_reDim.inc"
+   }
+#endif
 };
 
 #ifdef INST_SV_FROM_SS
@@ -131,6 +175,20 @@ struct SVFromSS : SVectorBase<R>
 };
 #endif
 
+#ifdef INST_REDIM
+/* reDim(newdim): returns the (re-allocated) index array; *dim, *vcap (capacity of the value vector), *len, *num are in/out */
+extern "C" int* w_ssrd(int* val, int* dim, int* vcap, int* idx, int* len, int* num, int* setup, int eps, int newdim)
+{
+   VIN("dim", *dim); VIN("vcap", *vcap); VIN("len", *len); VIN("num", *num); VIN("setup", *setup); VIN("newdim", newdim);
+   VIN_ARR8("idx", idx, *num);
+   Tolerances tol; tol.s_epsilon.v = eps;
+   SSVec s; s.val.p = (R*)val; s.val.n = *dim; s.val.cap = *vcap; s.idx = idx; s.len = *len; s.num = *num; s.freeArray = true;
+   s.setupStatus = (*setup != 0); s._tolerances = &tol;
+   s.reDim(newdim);
+   *dim = s.val.n; *vcap = s.val.cap; *len = s.len; *num = s.num; *setup = s.setupStatus ? 1 : 0;
+   return s.idx;
+}
+#else
 /* op 0 setup  1 unSetup  2 clear  3 setValue(a, xv)  4 add(a, xv)  5 clearIdx(a)  6 clearNum(a)  7 *= xv
  *    8 multAdd(xv, b)  9 assign(b)  10 *this = b (sparse)  11 (sparse) out = *this */
 extern "C" void w_ss(int* val, int dim, int* idx, int len, int* num, int* setup, int eps, int op, int a, int xv,
@@ -174,3 +232,4 @@ extern "C" void w_ss(int* val, int dim, int* idx, int len, int* num, int* setup,
 #endif
    *num = s.num; *setup = s.setupStatus ? 1 : 0; *bused = sb.memused;
 }
+#endif
